@@ -436,4 +436,224 @@ theorem commit_rel {cfg : Cfg} : ∀ (prog : List Push) (s s' : Scn), commit cfg
     · cases h
     · next s1 h1 => exact (push_rel h1).trans (commit_rel ps s1 s' h)
 
+/-! ### frames: what a push does not write -/
+
+/-- the push assigns the plain retriever `f` (through a plain link or as a `REFRESH` target) -/
+def Push.writes (f : Field) : Push → Prop
+  | .plain _ g => g = f
+  | .objs _ refresh => ∃ x ∈ refresh, x.1 = f
+
+/-- the push is an object-list link of `l` -/
+def Push.isObjs (l : Field) : Push → Prop
+  | .plain _ _ => False
+  | .objs k _ => k = l
+
+theorem refreshAll_frame (allow : Bool) (n : Nat) (f : Field) : ∀ (l : List (Field × Deriv)) (p p' : Rec),
+    refreshAll allow p n l = .ok p' → (∀ x ∈ l, x.1 ≠ f) → p' f = p f
+  | [], p, p', h, _ => by simp [refreshAll] at h; subst h; rfl
+  | (t, d) :: rest, p, p', h, hn => by
+    unfold refreshAll at h
+    split at h
+    · cases h
+    · next c hc =>
+      have ht : t ≠ f := hn (t, d) (by simp)
+      rw [refreshAll_frame allow n f rest _ _ h (fun x hx => hn x (by simp [hx]))]
+      simp [Dirty.recSet, Ne.symm ht]
+
+theorem push_frame_plain {cfg : Cfg} {s s' : Scn} {p : Push} {f : Field} (h : push cfg s p = .ok s')
+    (hn : ¬ p.writes f) : s'.plain f = s.plain f := by
+  cases p with
+  | plain slot g =>
+    obtain ⟨c, v, _, _, rfl⟩ := pushPlain_spec h
+    have : g ≠ f := hn
+    simp [Dirty.recSet, Ne.symm this]
+  | objs l refresh =>
+    obtain ⟨c, c1, recs1, recs', p, _, _, _, _, hp, rfl⟩ := pushObjs_spec h
+    exact refreshAll_frame _ _ f _ _ _ hp (fun x hx hxf => hn ⟨x, hx, hxf⟩)
+
+theorem push_frame_list {cfg : Cfg} {s s' : Scn} {p : Push} {l : Field} (h : push cfg s p = .ok s')
+    (hn : ¬ p.isObjs l) : s'.lists l = s.lists l := by
+  cases p with
+  | plain slot g => obtain ⟨c, v, _, _, rfl⟩ := pushPlain_spec h; rfl
+  | objs k refresh =>
+    obtain ⟨c, c1, recs1, recs', p, _, _, _, _, _, rfl⟩ := pushObjs_spec h
+    have : k ≠ l := hn
+    simp [listSet, Ne.symm this]
+
+theorem commit_frame_plain {cfg : Cfg} {f : Field} : ∀ (prog : List Push) (s s' : Scn), commit cfg prog s = .ok s' →
+    (∀ p ∈ prog, ¬ p.writes f) → s'.plain f = s.plain f
+  | [], s, s', h, _ => by simp [commit] at h; subst h; rfl
+  | p :: ps, s, s', h, hn => by
+    unfold commit at h
+    split at h
+    · cases h
+    · next s1 h1 =>
+      rw [commit_frame_plain ps s1 s' h (fun q hq => hn q (by simp [hq])), push_frame_plain h1 (hn p (by simp))]
+
+theorem commit_frame_list {cfg : Cfg} {l : Field} : ∀ (prog : List Push) (s s' : Scn), commit cfg prog s = .ok s' →
+    (∀ p ∈ prog, ¬ p.isObjs l) → s'.lists l = s.lists l
+  | [], s, s', h, _ => by simp [commit] at h; subst h; rfl
+  | p :: ps, s, s', h, hn => by
+    unfold commit at h
+    split at h
+    · cases h
+    · next s1 h1 =>
+      rw [commit_frame_list ps s1 s' h (fun q hq => hn q (by simp [hq])), push_frame_list h1 (hn p (by simp))]
+
+theorem commit_append {cfg : Cfg} : ∀ (a b : List Push) (s s' : Scn), commit cfg (a ++ b) s = .ok s' →
+    ∃ s1, commit cfg a s = .ok s1 ∧ commit cfg b s1 = .ok s'
+  | [], b, s, s', h => ⟨s, rfl, h⟩
+  | p :: ps, b, s, s', h => by
+    simp only [List.cons_append] at h
+    unfold commit at h
+    split at h
+    · cases h
+    · next s1 h1 =>
+      obtain ⟨s2, h2, h3⟩ := commit_append ps b s1 s' h
+      exact ⟨s2, by simp [commit, h1, h2], h3⟩
+
+theorem commit_cons {cfg : Cfg} {p : Push} {ps : List Push} {s s' : Scn} (h : commit cfg (p :: ps) s = .ok s') :
+    ∃ s1, push cfg s p = .ok s1 ∧ commit cfg ps s1 = .ok s' := by
+  unfold commit at h
+  split at h
+  · cases h
+  · next s1 h1 => exact ⟨s1, h1, h⟩
+
+/-! ### a write that lands -/
+
+/-- a landing internal write: the retriever is unmarked, or the setting is on -/
+theorem internalSet_lands {α : Type} {allow : Bool} {c : Cell α} (v : α) (h : c.dirty = false ∨ allow = true) :
+    c.internalSet allow v = { data := some v, dirty := c.dirty } := by
+  rcases h with h | h
+  · rw [internalSet_clean _ _ _ h, h]
+  · rw [h, internalSet_allow]
+
+/-- the value of the LAST `REFRESH` entry for `t` is what an unmarked (or overwritable) count field receives -/
+theorem refreshAll_lands (allow : Bool) (n : Nat) (t : Field) (d : Deriv) : ∀ (pre post : List (Field × Deriv)) (p p' : Rec) (c : Cell Val),
+    refreshAll allow p n (pre ++ (t, d) :: post) = .ok p' → (∀ x ∈ post, x.1 ≠ t) → p t = some c →
+    (c.dirty = false ∨ allow = true) → p' t = some { data := some (d.eval n), dirty := c.dirty }
+  | [], post, p, p', c, h, hn, hc, hl => by
+    simp only [List.nil_append] at h
+    unfold refreshAll at h
+    rw [hc] at h
+    simp only at h
+    rw [refreshAll_frame allow n t post _ _ h hn]
+    simp [Dirty.recSet, internalSet_lands _ hl]
+  | (u, e) :: pre, post, p, p', c, h, hn, hc, hl => by
+    simp only [List.cons_append] at h
+    unfold refreshAll at h
+    split at h
+    · cases h
+    · next cu hcu =>
+      by_cases hut : u = t
+      · subst hut
+        rw [hc] at hcu; cases hcu
+        have := refreshAll_lands allow n u d pre post _ p' (c.internalSet allow (e.eval n)) h hn
+          (by simp [Dirty.recSet]) (by rw [(LibRel.internalSet _ _ _).1]; exact hl)
+        rw [this, (LibRel.internalSet _ _ _).1]
+      · exact refreshAll_lands allow n t d pre post _ p' c h hn (by simp [Dirty.recSet, Ne.symm hut, hc]) hl
+
+/-! ### writes that land during a commit -/
+
+/-- both variants: an unmarked (or overwritable) list is resized to the manager's length -/
+theorem updateLength_lands {cfg : Cfg} {l : Field} {c c1 : Cell (List Rec)} {n : Nat}
+    (hl : c.dirty = false ∨ cfg.allow = true) (h : updateLength cfg l c n = .ok c1) :
+    ∃ recs1, c1.data = some recs1 ∧ recs1.length = n := by
+  unfold updateLength at h
+  split at h
+  · cases h
+  · next recs hrecs =>
+    split at h
+    · next hn => cases h; exact ⟨recs, hrecs, hn.symm⟩
+    · split at h
+      · next hlt =>
+        cases h
+        rw [internalSet_lands _ hl]
+        exact ⟨_, rfl, by simp; omega⟩
+      · next hne hnl =>
+        split at h
+        · cases h
+          rw [internalSet_lands _ hl]
+          exact ⟨_, rfl, by simp; omega⟩
+        · cases h
+          exact ⟨_, rfl, by simp; omega⟩
+
+/-- the last plain link of `f` in the program decides an unmarked (or overwritable) retriever -/
+theorem commit_plain_lands {cfg : Cfg} {s s' : Scn} {pre post : List Push} {slot : Nat} {f : Field} {c : Cell Val}
+    (h : commit cfg (pre ++ Push.plain slot f :: post) s = .ok s') (hpost : ∀ p ∈ post, ¬ p.writes f)
+    (hc : s.plain f = some c) (hl : c.dirty = false ∨ cfg.allow = true) :
+    ∃ v, s.mgr slot = some v ∧ s'.plain f = some { data := some v, dirty := c.dirty } := by
+  obtain ⟨s1, h1, h2⟩ := commit_append _ _ _ _ h
+  obtain ⟨s2, h3, h4⟩ := commit_cons h2
+  have r1 := commit_rel _ _ _ h1
+  rcases r1.plain f with ⟨x, _⟩ | ⟨x, c1, hx, hc1, hlib⟩
+  · rw [hc] at x; cases x
+  · rw [hc] at hx; cases hx
+    obtain ⟨c1', v, hc1', hv, rfl⟩ := pushPlain_spec h3
+    rw [hc1] at hc1'; cases hc1'
+    refine ⟨v, by rw [← r1.mgr]; exact hv, ?_⟩
+    rw [commit_frame_plain _ _ _ h4 hpost]
+    have : c1.dirty = false ∨ cfg.allow = true := by rw [hlib.1]; exact hl
+    simp [Dirty.recSet, internalSet_lands _ this, hlib.1]
+
+/-- the plain link exists, hence the retriever it writes -/
+theorem commit_plain_exists {cfg : Cfg} {s s' : Scn} {pre post : List Push} {slot : Nat} {f : Field}
+    (h : commit cfg (pre ++ Push.plain slot f :: post) s = .ok s') : ∃ c, s.plain f = some c := by
+  obtain ⟨s1, h1, h2⟩ := commit_append _ _ _ _ h
+  obtain ⟨s2, h3, _⟩ := commit_cons h2
+  obtain ⟨c1, v, hc1, _, _⟩ := pushPlain_spec h3
+  rcases (commit_rel _ _ _ h1).plain f with ⟨_, y⟩ | ⟨x, _, hx, _, _⟩
+  · rw [hc1] at y; cases y
+  · exact ⟨x, hx⟩
+
+/-- the last object-list link of `l` decides the length of an unmarked (or overwritable) list, and the count field
+refreshed from it receives that length -/
+theorem commit_list_lands {cfg : Cfg} {s s' : Scn} {pre post : List Push} {l : Field} {refresh : List (Field × Deriv)}
+    {c : Cell (List Rec)}
+    (h : commit cfg (pre ++ Push.objs l refresh :: post) s = .ok s') (hpost : ∀ p ∈ post, ¬ p.isObjs l)
+    (hc : s.lists l = some c) (hl : (c.dirty = false ∧ cfg.fixed = true) ∨ cfg.allow = true) :
+    ∃ c' recs', s'.lists l = some c' ∧ c'.data = some recs' ∧ recs'.length = (s.mobjs l).length ∧
+      (cfg.fixed = true → c'.dirty = c.dirty) := by
+  obtain ⟨s1, h1, h2⟩ := commit_append _ _ _ _ h
+  obtain ⟨s2, h3, h4⟩ := commit_cons h2
+  have r1 := commit_rel _ _ _ h1
+  rcases r1.lists l with ⟨x, _⟩ | ⟨x, c1, hx, hc1, hlib⟩
+  · rw [hc] at x; cases x
+  · rw [hc] at hx; cases hx
+    obtain ⟨c1', c2, recs2, recs', p, hc1', hu, hd2, hco, _, rfl⟩ := pushObjs_spec h3
+    rw [hc1] at hc1'; cases hc1'
+    rw [commit_frame_list _ _ _ h4 hpost]
+    have hl1 : c1.dirty = false ∨ cfg.allow = true := by
+      rcases hl with ⟨hd, hf⟩ | ha
+      · left; rw [hlib.fixedDirty hf]; exact hd
+      · exact Or.inr ha
+    obtain ⟨recs2', hd2', hlen⟩ := updateLength_lands hl1 hu
+    rw [hd2] at hd2'; cases hd2'
+    refine ⟨{ c2 with data := some recs' }, recs', by simp [listSet], rfl, ?_, ?_⟩
+    · rw [commitObjs_length _ _ _ _ hco, hlen, r1.mobjs]
+    · intro hf
+      show c2.dirty = c.dirty
+      rw [(updateLength_fixed hf hu).1, hlib.fixedDirty hf]
+
+/-- a count field the user did not touch receives the length of its list as it is saved -/
+theorem commit_count_lands {cfg : Cfg} {s s' : Scn} {pre post : List Push} {l : Field} {rpre rpost : List (Field × Deriv)}
+    {t : Field} {d : Deriv} {c : Cell Val}
+    (h : commit cfg (pre ++ Push.objs l (rpre ++ (t, d) :: rpost) :: post) s = .ok s')
+    (hpostl : ∀ p ∈ post, ¬ p.isObjs l) (hpostt : ∀ p ∈ post, ¬ p.writes t) (hrpost : ∀ x ∈ rpost, x.1 ≠ t)
+    (hc : s.plain t = some c) (hl : c.dirty = false ∨ cfg.allow = true) :
+    ∃ recs', savedRecs s' l = some recs' ∧ s'.plain t = some { data := some (d.eval recs'.length), dirty := c.dirty } := by
+  obtain ⟨s1, h1, h2⟩ := commit_append _ _ _ _ h
+  obtain ⟨s2, h3, h4⟩ := commit_cons h2
+  have r1 := commit_rel _ _ _ h1
+  rcases r1.plain t with ⟨x, _⟩ | ⟨x, c1, hx, hc1, hlib⟩
+  · rw [hc] at x; cases x
+  · rw [hc] at hx; cases hx
+    obtain ⟨cl, c2, recs2, recs', p, _, _, _, _, hp, rfl⟩ := pushObjs_spec h3
+    have hl1 : c1.dirty = false ∨ cfg.allow = true := by rw [hlib.1]; exact hl
+    have := refreshAll_lands _ _ t d rpre rpost _ _ c1 hp hrpost hc1 hl1
+    refine ⟨recs', ?_, ?_⟩
+    · simp [savedRecs, commit_frame_list _ _ _ h4 hpostl, listSet]
+    · rw [commit_frame_plain _ _ _ h4 hpostt]
+      simp [this, hlib.1]
+
 end Aoe.Dirty
